@@ -1063,9 +1063,10 @@ class PandasModelBase(
         self.drop_indices(res)
         if scratch_col is not None:
             del res[scratch_col]
-        on_a_set = set(op.on_a)
         for c in common_cols:
-            if c not in on_a_set:
+            # the right copy of a common column is present unless c is a key paired with itself;
+            # in particular it is present for a left key c paired with a differently named right key
+            if (c + "_tmp_right_col") in res.columns:
                 is_null = res[c].isnull()
                 res[c] = res[c].where(~is_null, res[c + "_tmp_right_col"])
                 res = res.drop(c + "_tmp_right_col", axis=1, inplace=False)
